@@ -35,7 +35,7 @@ REQUIRED = {"count": 400, "domain/box_uniform": 3000, "domain/box_grid": 10000, 
             "interp/curve": 400, "interp/patch": 400, "hull/curve": 1500, "hull/patch": 1500,
             "reject/curve": 1500, "reject/patch": 3000, "export/as_polyline": 2000, "export/as_surface": 1500,
             "export/as_surface_n1_ne_n2": 40}
-CASE_TIMEOUT = {"quick": 60.0, "thorough": 300.0}
+CASE_TIMEOUT = {"quick": 30.0, "thorough": 300.0}
 
 ALPHA_RUN = 1e-6          # admitted probability of a false 'share' alarm per run
 MAX_BINS = 40             # elements per share experiment
